@@ -3,6 +3,7 @@ package main
 import (
 	"fmt"
 	"go/token"
+	"sort"
 	"strings"
 
 	"golang.org/x/tools/go/ssa"
@@ -399,4 +400,165 @@ func (c *Ctx) loadedUnder(it Item, key, class string, mode byte) (bool, string) 
 		return false, "the condition does not read " + key
 	}
 	return true, ""
+}
+
+// ---- discovered anchors -------------------------------------------------------------------------
+// An unexported function name is only a hint: when the function of that name is gone (renamed,
+// merged, inlined) the construct is looked up by what it does.
+
+// fnCalling returns the non-closure functions of a package (path suffix) that call a callee whose
+// name satisfies pred, in name order.
+func (c *Ctx) fnCalling(pkgSuffix string, pred func(callee string, ci ssa.CallInstruction) bool) []*ssa.Function {
+	p := c.P
+	var out []*ssa.Function
+	for _, fn := range p.Funcs {
+		pk := fnPkg(fn)
+		if pk == nil || !strings.HasSuffix(pk.Pkg.Path(), pkgSuffix) || fn.Parent() != nil {
+			continue
+		}
+		hit := false
+		for _, ci := range callsIn(fn) {
+			if pred(CalleeName(ci), ci) {
+				hit = true
+			}
+		}
+		if hit {
+			out = append(out, fn)
+		}
+	}
+	sort.Slice(out, func(i, j int) bool { return out[i].Name() < out[j].Name() })
+	return out
+}
+
+func (c *Ctx) anchor(pkg, recv, name string, discover func() *ssa.Function) *ssa.Function {
+	if f := c.P.Fn(pkg, recv, name); f != nil {
+		return f
+	}
+	return discover()
+}
+
+// probeRoot: the function a probing goroutine runs for one backend (checkBackendHealth): the probe
+// sender (the function calling (*http.Client).Do), or the closest caller above it that is itself
+// only called from goroutine closures.
+func (c *Ctx) probeRoot() *ssa.Function {
+	return c.anchor("internal/loadbalancer", "LoadBalancer", "checkBackendHealth", func() *ssa.Function {
+		p := c.P
+		senders := c.fnCalling("/internal/loadbalancer", func(n string, _ ssa.CallInstruction) bool { return n == "(*net/http.Client).Do" })
+		if len(senders) == 0 {
+			return nil
+		}
+		f := senders[0]
+		for hops := 0; hops < 3; hops++ {
+			var named []*ssa.Function
+			for _, g := range p.Funcs {
+				if !p.InScope(g) {
+					continue
+				}
+				for _, ci := range callsIn(g) {
+					if StaticFn(ci) == f && g.Parent() == nil {
+						named = append(named, g)
+					}
+				}
+			}
+			if len(named) != 1 || named[0].Object() == nil || named[0].Object().Exported() {
+				break
+			}
+			f = named[0]
+		}
+		return f
+	})
+}
+
+// byteLimitParser / gzipOptionParser / acceptEncodingFn / idGenerator / handlerBuilder.
+func (c *Ctx) byteLimitParser() *ssa.Function {
+	return c.anchor("internal/plugins", "", "parseByteLimit", func() *ssa.Function {
+		for _, fn := range c.P.Funcs {
+			pk := fnPkg(fn)
+			if pk == nil || !strings.HasSuffix(pk.Pkg.Path(), "/internal/plugins") || fn.Parent() != nil {
+				continue
+			}
+			rs := fn.Signature.Results()
+			if rs.Len() == 2 && rs.At(0).Type().String() == "int64" && rs.At(1).Type().String() == "error" {
+				return fn
+			}
+		}
+		return nil
+	})
+}
+
+func (c *Ctx) gzipOptionParser() *ssa.Function {
+	return c.anchor("internal/plugins", "", "parseGzipConfig", func() *ssa.Function {
+		var out *ssa.Function
+		for _, fn := range c.P.Funcs {
+			pk := fnPkg(fn)
+			if pk == nil || !strings.HasSuffix(pk.Pkg.Path(), "/internal/plugins") {
+				continue
+			}
+			instrsOf(fn, func(in ssa.Instruction) {
+				if lk, ok := in.(*ssa.Lookup); ok {
+					if k, isStr := constStr(lk.Index); isStr && k == "level" {
+						out = outermost(fn)
+					}
+				}
+			})
+		}
+		return out
+	})
+}
+
+func (c *Ctx) acceptEncodingFn() *ssa.Function {
+	return c.anchor("internal/plugins", "", "containsGzip", func() *ssa.Function {
+		p := c.P
+		for _, fn := range p.Funcs {
+			pk := fnPkg(fn)
+			if pk == nil || !strings.HasSuffix(pk.Pkg.Path(), "/internal/plugins") {
+				continue
+			}
+			for _, ci := range callsIn(fn) {
+				h := StaticFn(ci)
+				if h == nil || !p.IsHelios(h) || h.Blocks == nil {
+					continue
+				}
+				for _, a := range ci.Common().Args {
+					if strings.Contains(p.Desc(a, nil), `k:"Accept-Encoding"`) {
+						return h
+					}
+				}
+			}
+		}
+		return nil
+	})
+}
+
+func (c *Ctx) idGenerator() *ssa.Function {
+	return c.anchor("internal/logging", "", "generateIdentifier", func() *ssa.Function {
+		fs := c.fnCalling("/internal/logging", func(n string, _ ssa.CallInstruction) bool { return n == "crypto/rand.Read" })
+		if len(fs) == 0 {
+			return nil
+		}
+		return fs[0]
+	})
+}
+
+func (c *Ctx) handlerBuilder() *ssa.Function {
+	return c.anchor("cmd/helios", "", "buildHandler", func() *ssa.Function {
+		fs := c.fnCalling("/cmd/helios", func(n string, _ ssa.CallInstruction) bool { return strings.HasSuffix(n, "plugins.BuildChain") })
+		if len(fs) == 0 {
+			return nil
+		}
+		return fs[0]
+	})
+}
+
+// probeSender: the function that performs the probe request ((*http.Client).Do).
+func (c *Ctx) probeSender() *ssa.Function {
+	if c.senderDone {
+		return c.sender
+	}
+	c.senderDone = true
+	fs := c.fnCalling("/internal/loadbalancer", func(n string, _ ssa.CallInstruction) bool { return n == "(*net/http.Client).Do" })
+	if len(fs) > 0 {
+		c.sender = fs[0]
+	}
+	return c.sender
 }
